@@ -848,6 +848,12 @@ void fit_gboost(vh::rng_t& rng)
     }
     ctx.what += " seed=" + std::to_string(vh::env_seed()) + " fit#" + std::to_string(g_fits);
 
+    // one fit in three is followed by a second fit of the SAME model object (identical configuration): every clause must
+    // hold again -- the final model of a re-fit is the fold average of ITS optimum trial, nothing of the first fit survives
+    const int passes = rng.range(0, 2) == 0 ? 2 : 1;
+    for (int pass = 0; pass < passes; ++pass)
+    {
+    if (pass > 0) ctx.what += " REFIT-of-the-same-model-object";
     ml::result_t result;
     try { result = model.fit(dataset, samples, *loss, fit_params); }
     catch (const std::exception& e)
@@ -979,6 +985,7 @@ void fit_gboost(vh::rng_t& rng)
                 static_cast<int64_t>(trials), static_cast<int64_t>(folds), static_cast<int64_t>(opt),
                 static_cast<double>(rounds_total) / static_cast<double>(trials * folds), early, static_cast<int64_t>(trials * folds),
                 model.wlearners().size(), ctx.what.c_str());
+    }
 }
 
 void fit_linear(vh::rng_t& rng)
